@@ -78,6 +78,17 @@ def gen_cases(ctx) -> List[Dict[str, Any]]:
     for b in ("unstartable", "not_executable"):
         for e in ("normal", "cancel"):
             cases.append({"behaviour": b, "exit": e, "moment": "before_first"})
+    # a child that is talkative on stderr, under the server environments that change how the client wires stderr
+    for envk, envv in ((None, None), ("LOG_LEVEL", "ERROR"), ("LOG_LEVEL", "critical"), ("LOGGING_LEVEL", "ERROR"),
+                       ("LOG_LEVEL", "DEBUG")):
+        for size in ((400_000,) if ctx.tier == "quick" else (70_000, 400_000, 2_000_000)):
+            for e in (("normal", "cancel") if ctx.tier == "quick" else exits):
+                c = {"behaviour": f"stderr_burst:{size}", "exit": e, "moment": "after_response"}
+                if envk:
+                    c["env"] = {envk: envv}
+                cases.append(c)
+    for b in ("well_behaved", "ignore_sigterm", "flood"):
+        cases.append({"behaviour": b, "exit": "normal", "moment": "in_flight", "env": {"LOG_LEVEL": "ERROR"}})
     return cases
 
 
@@ -140,6 +151,10 @@ def judge(ctx, case: Dict[str, Any], o: Dict[str, Any], remeasure) -> None:
         if case["exit"] in ("cancel", "fail_after"):
             mech += "_after_cancellation"
         ctx.violation(mech, f"{o['fd_delta']} additional open file descriptors after exit: {o.get('fd_new')}", case, o)
+    elif o.get("fd_delta_before_gc", 0) > 0:
+        ctx.violation("fd_closed_only_by_garbage_collection", f"{o['fd_delta_before_gc']} additional descriptors were still "
+                      f"open 0.3 s after the context was left and were only closed by a garbage collection: "
+                      f"{o.get('fd_new_before_gc')}; warnings: {o.get('warnings', [])[:3]}", case, o)
     shape.append(o.get("fd_delta"))
     # bounded exit
     d = o.get("exit_duration")
